@@ -283,7 +283,8 @@ theorem fuse_lossless_inputs_partial (fuel memMax : Nat) (xs : List Input) (outs
     shaping plan from either input.  (For three inputs this is false: `not_fuse_uniform`.) -/
 theorem merge_admits_good_plans (n : Nat) (a b c : Ty) (ha : clean a = true) (hb : clean b = true)
     (h : merge n a b = some c) : fits a c = true ∧ fits b c = true :=
-  merge_fitsJoin n a b c ha hb h
+  let ⟨f1, f2⟩ := merge_fitsJoin n a b c ha hb h
+  ⟨fits_of_fitsN (clean_not_error a ha) f1, fits_of_fitsN (clean_not_error b hb) f2⟩
 
 private theorem firstSeen_nodup (seen ts : List Ty) : (firstSeen seen ts).Nodup := by
   induction ts generalizing seen with
@@ -354,19 +355,21 @@ theorem fuse_two_types_lossless (fuel memMax : Nat) (a b : Ty) (xs : List Input)
     subst hT
     intro x hx; have := hmem x hx; rw [e] at this
     simp only [List.mem_singleton] at this
-    rw [this]; exact fits_refl _
+    rw [this]; exact fits_of_fitsN (clean_not_error a ha) (fits_refl _)
   · rw [e] at hT
     simp only [mixinAll, mixin, Option.bind_some, Option.some.injEq] at hT
     subst hT
     intro x hx; have := hmem x hx; rw [e] at this
     simp only [List.mem_singleton] at this
-    rw [this]; exact fits_refl _
+    rw [this]; exact fits_of_fitsN (clean_not_error b hb) (fits_refl _)
   · rw [e] at hT
     simp only [mixinAll, mixin, Option.bind_some, Option.bind_eq_some_iff, Option.map_eq_some_iff] at hT
     obtain ⟨s, ⟨c, hc, rfl⟩, hs⟩ := hT
     simp only [Option.some.injEq] at hs
     subst hs
     obtain ⟨f1, f2⟩ := merge_fitsJoin fuel a b c ha hb hc
+    have g1 := fits_of_fitsN (clean_not_error a ha) f1
+    have g2 := fits_of_fitsN (clean_not_error b hb) f2
     intro x hx
     rcases hab x hx with e' | e' <;> rw [e'] <;> assumption
   · rw [e] at hT
@@ -375,6 +378,8 @@ theorem fuse_two_types_lossless (fuel memMax : Nat) (a b : Ty) (xs : List Input)
     simp only [Option.some.injEq] at hs
     subst hs
     obtain ⟨f1, f2⟩ := merge_fitsJoin fuel b a c hb ha hc
+    have g1 := fits_of_fitsN (clean_not_error b hb) f1
+    have g2 := fits_of_fitsN (clean_not_error a ha) f2
     intro x hx
     rcases hab x hx with e' | e' <;> rw [e'] <;> assumption
 
@@ -467,6 +472,8 @@ def noDupUnion : Ty → Bool
   | .map k v => noDupUnion k && noDupUnion v
   | .union ts => noDupUnionU ts && ts.toList.Nodup
   | .named _ t => noDupUnion t
+  | .enum _ => true
+  | .error t => noDupUnion t
 def noDupUnionF : Fields → Bool
   | .nil => true
   | .cons _ t r => noDupUnion t && noDupUnionF r
